@@ -97,9 +97,9 @@ func (m *vC15Remote) Fn(dest cciptypes.ChainSelector, src []cciptypes.ChainSelec
 		case "ctx-canceled":
 			return nil, context.Canceled
 		case "nil-info": // an error together with a non-nil (empty) answer
-			return &readerpkg.CurseInfo{CursedSourceChains: map[cciptypes.ChainSelector]bool{}}, vErr
+			return &readerpkg.CurseInfo{CursedSourceChains: map[cciptypes.ChainSelector]bool{}}, vErrNext()
 		}
-		return nil, vErr
+		return nil, vErrNext()
 	}
 	ci := &readerpkg.CurseInfo{CursedSourceChains: map[cciptypes.ChainSelector]bool{}, CursedDestination: m.global || m.dest, GlobalCurse: m.global}
 	for _, c := range src {
@@ -130,7 +130,7 @@ func (m *vC15Remote) realRead(dest cciptypes.ChainSelector, src []cciptypes.Chai
 	}
 	switch m.kind {
 	case "rpc-plain":
-		fac.err = vErr
+		fac.err = vErrNext()
 	case "rpc-ctx":
 		fac.err = context.DeadlineExceeded
 	}
@@ -400,7 +400,7 @@ func TestVerif_C15_cycle_commit(t *testing.T) {
 			},
 			NextSeqNumFn: func(chains []cciptypes.ChainSelector) ([]cciptypes.SeqNum, error) {
 				if mode == 1 {
-					return nil, vErr
+					return nil, vErrNext()
 				}
 				out := make([]cciptypes.SeqNum, len(chains))
 				for x, c := range chains {
